@@ -884,7 +884,35 @@ def _iter_component(it: Term, path: tuple[int, ...], loopid) -> Term:
         return _iter_component(it[2][path[0]], path[1:], loopid)
     if fn == ("builtin", "reversed") and it[2]:
         return _project(("iter", it, loopid), path)
+    if it[0] == "comp" and it[1] in ("list", "gen", "set") and len(it[3]) == 1:
+        # `for a, b in [(x, y) for x, y in enumerate(L) if c]`: the loop variables are the components of the
+        # element, i.e. values of the inner iteration (the filter `c` is a path condition, see util.path_condition)
+        inner_ids = comp_loop_ids(it)
+        if len(inner_ids) == 1:
+            return _project(_retag(it[2], next(iter(inner_ids)), loopid), path)
     return _project(("iter", it, loopid), path)
+
+
+def comp_loop_ids(comp: Term) -> set:
+    """Loop ids of the generators of a comprehension term (found on the iter/enumidx terms of its variables)."""
+    ids = set()
+    stack = [comp[2]] + [c for g in comp[3] for c in g[2]]
+    while stack:
+        x = stack.pop()
+        if not isinstance(x, tuple) or not x:
+            continue
+        if x[0] in ("iter", "enumidx") and len(x) == 3 and isinstance(x[2], tuple) and x[2] and x[2][0] == "comp":
+            ids.add(x[2])
+        stack.extend(y for y in x if isinstance(y, tuple))
+    return ids
+
+
+def _retag(t, old, new):
+    if not isinstance(t, tuple):
+        return t
+    if t == old:
+        return new
+    return tuple(_retag(x, old, new) for x in t)
 
 
 # ------------------------------------------------------------------ queries
